@@ -254,6 +254,28 @@ func evaluate(cs Case, final *dmodel.Model) (res result) {
 	if err != nil {
 		return result{verdict: "violated", key: fmt.Sprintf("%s|hcl-eval-error", cs.Dialect), what: "EvalHCLBytes rejected the HCL of a valid model: " + err.Error(), kinds: kinds}
 	}
+	// Graph-level listing order: the Parts slice of a key / index lists its parts in any order, the
+	// position is carried by SeqNo ("the same objects listed in another order"). In every permuted
+	// case the slices of the permuted side are reversed, SeqNo kept.
+	if p := cs.Perm; p != nil && cs.Class != "identity:self" {
+		g := to
+		if p.Side == "from" {
+			g = from
+		}
+		for _, t := range g.Tables {
+			rev := func(ps []*schema.IndexPart) {
+				for i, j := 0, len(ps)-1; i < j; i, j = i+1, j-1 {
+					ps[i], ps[j] = ps[j], ps[i]
+				}
+			}
+			if t.PrimaryKey != nil {
+				rev(t.PrimaryKey.Parts)
+			}
+			for _, ix := range t.Indexes {
+				rev(ix.Parts)
+			}
+		}
+	}
 	df := differ(d)
 	var changes []schema.Change
 	switch cs.API {
